@@ -681,6 +681,26 @@ def auto_r2(sf, ed, lo, hi, arms=()):
                     continue
                 n += 1
                 ed.rw(s0, e0, '_vx_unused%d' % n, 'R2')
+            elif (st[k].text == '(' and st[k - 1].text == '|' and k == po + 1 and sf.m[k] + 1 == pc and sf.m[k] > k + 1
+                  and all((IDENT_ONLY.match(st[q].text) if (q - k) % 2 == 1 else st[q].text == ',') for q in range(k + 1, sf.m[k]))):
+                # Rule R2 (tuple form): the ONLY parameter is a tuple pattern of plain identifiers `|(a, b)| E`: it becomes
+                # `|_vx_tupN| { let (a, b) = _vx_tupN; E }` (Verus: "only variables are supported here"); a closure contract
+                # hint for it names the parameter `_vx_tup`, which is replaced by the generated name
+                s0, e0 = st[k].start, st[sf.m[k]].end
+                if any(e[0] <= s0 < e[0] + max(e[1], 1) or (s0 <= e[0] < e0) for e in ed.ed if e[1] > 0):
+                    continue
+                if any(a['p0'] <= k <= a['e'] for a in arms):
+                    continue
+                n += 1
+                pat = sf.src[s0:e0]
+                ed.rw(s0, e0, '_vx_tup', 'R2')
+                if is_block:
+                    ed.ins(st[b0].end, ' let %s = _vx_tup; ' % pat)
+                else:
+                    # (the braces around an expression body are added by annotate_closures when the closure has a contract;
+                    #  here the let needs its own block)
+                    ed.ins(st[b0].start, '{ let %s = _vx_tup; ' % pat)
+                    ed.ins(st[b1].end, ' }')
             elif st[k].text == '(' and st[k + 1].text == ')' and st[k - 1].text in ('|', ',') and st[k + 2].text in ('|', ','):
                 # the unit pattern `()` as a closure parameter: a named variable of type ()
                 s0, e0 = st[k].start, st[k + 1].end
